@@ -171,7 +171,8 @@ func ValidateIssuer(issuer string, allowInsecure bool) error {
 }
 
 func ValidateIssuerPath(issuer *url.URL) error {
-	if issuer.Fragment != "" || len(issuer.Query()) > 0 {
+	// Query() silently drops pairs it cannot parse, the raw query has to be empty as well
+	if issuer.Fragment != "" || issuer.RawQuery != "" || len(issuer.Query()) > 0 {
 		return ErrInvalidIssuerPath
 	}
 	return nil
